@@ -34,10 +34,12 @@ def history_case(L, first_ops, virtual_ids=True):
             v = {"query-returns-exactly-the-live-instances-each-once": True, "no-exception": True}
             tagc = [0]
 
-            def query(tname):
+            declared = []  # queries that were built earlier in the history and are evaluated at its end
+
+            def query(tname, q=None):
                 cls = W.CLASSES[tname]
                 try:
-                    res = list(an(entity(let(cls, None))).evaluate())
+                    res = list((q if q is not None else an(entity(let(cls, None)))).evaluate())
                 except Exception as e:
                     v["no-exception"] = False
                     ctx.observe("query %s raised %s: %s" % (tname, type(e).__name__, str(e)[:80]))
@@ -63,15 +65,18 @@ def history_case(L, first_ops, virtual_ids=True):
                     gc.collect()
                 elif op[0] == "query":
                     query(op[1])
+                elif op[0] == "declare":  # the variable is declared now, the query is evaluated later: it ranges over what is alive THEN
+                    declared.append((op[1], an(entity(let(W.CLASSES[op[1]], None)))))
                 elif op[0] == "clear":
                     # the registry is re-created: instances made before are forgotten by design
                     nonlocal_g[0] = W.fresh_graph()
                     del census[:]
+                    del declared[:]
 
             nonlocal_g = [g]
             for s in range(L):
                 live = [i for i, o in enumerate(objs) if o is not None]
-                opts = [("create", c) for c in CREATE] + [("drop", i) for i in live] + [("collect",)] + [("query", t) for t in QUERY] + [("clear",)]
+                opts = [("create", c) for c in CREATE] + [("drop", i) for i in live] + [("collect",)] + [("query", t) for t in QUERY] + [("clear",), ("declare", "T")]
                 if s < len(first_ops):
                     op = first_ops[s]
                     if op not in opts:
@@ -79,6 +84,9 @@ def history_case(L, first_ops, virtual_ids=True):
                 else:
                     op = opts[ctx.choice("op%d" % s, len(opts))]
                 do(op)
+            for (t, q) in declared:
+                trace.append(("evaluate-declared", t))
+                query(t, q)
             for t in QUERY + ["Other"]:
                 do(("query", t))
             ctx.observe([list(o) for o in trace[:L]])
@@ -95,9 +103,9 @@ def history_case(L, first_ops, virtual_ids=True):
 def cases(tier, seed):
     L = 4 if tier == "quick" else 6
     cs = []
-    firsts = [[("create", c)] for c in CREATE] + [[("query", "T")], [("clear",)], [("collect",)]]
+    firsts = [[("create", c)] for c in CREATE] + [[("query", "T")], [("clear",)], [("collect",)], [("declare", "T")]]
     if tier != "quick":
-        firsts = [[("create", c), op2] for c in CREATE for op2 in [("create", d) for d in CREATE] + [("drop", 0), ("collect",), ("query", "T"), ("query", "Sub"), ("clear",)]] + [[("query", "T")], [("clear",)], [("collect",)]]
+        firsts = [[("create", c), op2] for c in CREATE for op2 in [("create", d) for d in CREATE] + [("drop", 0), ("collect",), ("query", "T"), ("query", "Sub"), ("clear",)]] + [[("query", "T")], [("clear",)], [("collect",)], [("declare", "T")]]
     for f in firsts:
         nm = "history|first=%s" % "+".join(":".join(map(str, o)) for o in f)
         cs.append(Case(nm + "|L=%d" % L, history_case(L, f), key=nm, reset=W.world_reset, validate=0, timeout=900 if tier == "quick" else 3000, max_paths=400000))
@@ -108,7 +116,7 @@ def describe(tier):
     L = 4 if tier == "quick" else 6
     return dict(
         rule="histories of %d operations chosen by bounded symbolic choices from {create T / Sub(T) / Other, drop the program's reference to instance i, gc.collect(), "
-        "query T / Sub with an(entity(let(type, None))), SymbolGraph clear + re-create}, followed by a query of every type; run on the REAL SymbolGraph, rustworkx graph, "
+        "query T / Sub with an(entity(let(type, None))), declare such a query now and evaluate it at the end of the history, SymbolGraph clear + re-create}, followed by a query of every type; run on the REAL SymbolGraph, rustworkx graph, "
         "weakref and gc; id() as seen by symbol_graph.py is a nondeterministic allocator (any value not used by a live object, in particular the id of a dead one). "
         "After every query: the result multiset equals the harness's own weak-reference census of live instances of the type and its subclasses. "
         "non-trivial = some instance alive at the end" % L,
